@@ -431,6 +431,41 @@ def _from_quality(t):
     return t.op == "call" and call_name(t) == "chord.quality_to_bitmap"
 
 
+def rule_bitmapguard(ctx):
+    """scale_degree_to_bitmap: a degree at or beyond the octave (semitone >= length) is discarded unless modulo is set;
+    the one store into the edit map is guarded by `semitone < length or modulo` and indexes semitone % length."""
+    R = "C10.BITMAPGUARD"
+    f = ctx.program.func("chord.scale_degree_to_bitmap", R)
+    s = ctx.S.get(f.qual)
+    st = [m for m in s.by_kind("mutate") if m.how == "setitem"]
+    need(len(st) == 1, R, "scale_degree_to_bitmap: single edit-map store expected")
+    m = st[0]
+    sem = [c for c in s.calls() if c.callee == "chord.scale_degree_to_semitone"]
+    need(len(sem) == 1, R, "scale_degree_to_bitmap: scale_degree_to_semitone call not found")
+    idx = sem[0].term
+    L = tm.param("length")
+    conds = list(symeval.pc_conds(m.pc))
+    good = False
+    why = "store guard not recognised: %s" % "; ".join(tm.show(c, 3) for c, _ in conds)
+    for c, pol in conds:
+        if pol and c.op == "bool" and c.a[0] == "or":
+            parts = list(c.a[1:])
+            strict = [x for x in parts if x.op == "cmp" and x.a[0] == "<" and x.a[1] is idx and x.a[2] is L]
+            loose = [x for x in parts if x.op == "cmp" and x.a[0] == "<=" and x.a[1] is idx and x.a[2] is L]
+            mod = [x for x in parts if x.op == "param" and x.a[0] == "modulo"]
+            if strict and mod and len(parts) == 2:
+                good = True
+                why = "edit_map is written only when semitone < length or modulo"
+            elif loose:
+                why = "guard is semitone <= length: a degree exactly one octave up (index == length) wraps onto the root bit instead of being discarded"
+    yield ob(R, f, "chord.scale_degree_to_bitmap:octave-guard", good, why, node=m.node)
+    key = m.key
+    wrap = key.op == "bin" and key.a[0] == "%" and key.a[1] is idx and key.a[2] is L
+    yield ob(R, f, "chord.scale_degree_to_bitmap:index", wrap, "the written position is semitone % length")
+    okd, dv = f.default_value("modulo")
+    yield ob(R, f, "chord.scale_degree_to_bitmap:modulo-default", okd and dv is False, "modulo defaults to %r" % (dv,))
+
+
 RULES = [
     ("C10.GRAMMAR", 3, rule_grammar),
     ("C10.SPLITSAFE", 5, rule_splitsafe),
@@ -439,4 +474,5 @@ RULES = [
     ("C10.ENCODEPOST", 9, rule_encodepost),
     ("C10.JOINFORM", 2, rule_joinform),
     ("C10.TABLESAFE", 9, rule_tablesafe),
+    ("C10.BITMAPGUARD", 3, rule_bitmapguard),
 ]
